@@ -4,7 +4,9 @@ Specs: specs/file/FileModel.tla (+FileMC, FileTrace), MultiRead.tla (+MultiMC, M
 """
 import io
 import json
+import os
 import random
+import shutil
 import time
 
 from harness import core
@@ -66,7 +68,8 @@ class Driver(GenericAdapter):
             elif n == "read":
                 v = self.dec(f.read() if op["n"] == -1 else f.read(op["n"]))
             elif n == "readline":
-                v = self.dec(f.readline())
+                lim = op.get("n", -1)
+                v = self.dec(f.readline() if lim == -1 and not op.get("explicit") else f.readline(lim))
             elif n == "next":
                 v = self.dec(next(f))
             elif n == "readlines":
@@ -77,6 +80,10 @@ class Driver(GenericAdapter):
                 v = [f.seek(op["n"])]
             elif n == "seek_end":
                 v = [f.seek(0, 2)]
+            elif n == "seek_cur":
+                v = [f.seek(op["n"], 1)]
+            elif n == "seek_back_from_end":
+                v = [f.seek(-op["n"], 2)]
             elif n == "tell":
                 v = [f.tell()]
             elif n == "getvalue":
@@ -202,8 +209,21 @@ def record(n, length, seed):
                 op = {"op": "read", "n": rng.choice([-1, 0, 1, 2, 3, 7]), "piece": []}
             elif c < 0.65:
                 op = {"op": "seek", "n": rng.randint(0, size), "piece": []}
+                # io.StringIO knows no relative seeks but the no-move one; for bytes every spelling of a position is compared
+                if rng.random() < 0.35:
+                    try:
+                        cur = f.tell()
+                    except Exception:
+                        cur = 0
+                    if flavour == "bytes" and 0 <= cur <= size:
+                        tgt_ = rng.randint(0, size)
+                        op = rng.choice([{"op": "seek_cur", "n": tgt_ - cur, "piece": []}, {"op": "seek_back_from_end", "n": size - tgt_, "piece": []}])
+                    else:
+                        op = {"op": "seek_cur", "n": 0, "piece": []}
             else:
                 op = {"op": rng.choice(["readline", "next", "readlines", "iterate", "tell", "getvalue", "len", "len", "readline"]), "n": 0, "piece": []}
+                if op["op"] == "readline":
+                    op["n"] = rng.choice([-1, -1, -1, 0, 1, 2, 5])       # a limit, 0 included; -1 = none given
             r_ = drv.one(f, op, is_std)
             last = i == length - 1
             evs.append({"op": op, "r": r_, "obs": drv.obs1(f, is_std, quiet and not last), "quiet": quiet and not last})
@@ -241,12 +261,22 @@ def multi_traces(n, seed):
         tab = TEXT if flavour == "text" else BYTES
         drv = Driver(flavour, None, [10 ** 6])
         parts = [[rng.choice(list(tab)) for _ in range(rng.randint(0, 4))] for _ in range(rng.randint(1, 4))]
-        kind = rng.choice(["stdlib", "spooled", "file"])
+        kind = rng.choice(["stdlib", "spooled", "file", "mixed"])
         files = []
-        for p in parts:
+        tmpd = None
+        for pi, p in enumerate(parts):
             data = drv.enc(p)
-            if kind == "stdlib":
+            k_ = kind if kind != "mixed" else ["stdlib", "spooled", "file"][(pi + t) % 3]
+            if k_ == "stdlib":
                 files.append(io.StringIO(data) if flavour == "text" else io.BytesIO(data))
+            elif k_ == "file":
+                # real files on disk: binary, or text opened with an explicit encoding
+                import tempfile
+                tmpd = tmpd or tempfile.mkdtemp(prefix="c18mfr-")
+                path_ = os.path.join(tmpd, "part%d" % pi)
+                with open(path_, "wb") as fh_:
+                    fh_.write(data.encode("utf-8") if flavour == "text" else data)
+                files.append(open(path_, "r", encoding="utf-8", newline="") if flavour == "text" else open(path_, "rb"))
             else:
                 f = (drv.io.SpooledStringIO if flavour == "text" else drv.io.SpooledBytesIO)(max_size=rng.choice([1, 100]))
                 f.write(data)
@@ -271,6 +301,13 @@ def multi_traces(n, seed):
                 r = {"e": core.exc_name(ex), "v": []}
             evs.append({"op": op, "r": r})
         out.append({"parts": parts, "flavour": flavour, "kind": kind, "ev": evs})
+        for f_ in files:
+            try:
+                f_.close()
+            except Exception:
+                pass
+        if tmpd:
+            shutil.rmtree(tmpd, ignore_errors=True)
     return out
 
 
